@@ -165,6 +165,10 @@ fn monitor<R>(f: impl FnOnce(&mut Monitor) -> R) -> R {
     f(g.as_mut().unwrap())
 }
 
+pub fn is_published(tid: usize) -> bool {
+    monitor(|m| m.published.contains_key(&tid))
+}
+
 fn check_not_scanned(site: u32) {
     if let Some(me) = sched::current() {
         let hit = monitor(|m| m.scanned_by.get(&me).copied());
